@@ -200,7 +200,7 @@ def d_list(elem, lo=0, hi=None):
   args = elem.src + (f', min_size={lo}' if lo else '') + (f', max_size={hi}' if hi is not None else '')
   def ok(v, partial):
     return (isinstance(v, list) and len(v) >= lo and (hi is None or len(v) <= hi)
-            and all(elem.ok(e, partial) and not is_missing(e) for e in v))
+            and all(elem.ok(e, partial) for e in v))   # a missing element only in a partial list
   ev = [s for _, s in elem.valid]
   base_n = max(lo, 1)
   valid = [('list', '[' + ', '.join((ev * 4)[:base_n]) + ']')]
@@ -786,7 +786,7 @@ def _list_batch_ok(n_valid):
   """A failed batch may have applied some of its n_valid valid elements: each
   applied element replaces or inserts one item."""
   def g(xb, xa):
-    return len(xa) >= len(xb) and _edit_distance(xb, xa) <= n_valid
+    return len(xa) >= len(xb) - n_valid and _edit_distance(xb, xa) <= n_valid
   return g
 
 
@@ -799,9 +799,12 @@ def list_ops(sub, n, elem_samples):
   ld = sub.x_desc
   lo, hi = ld.lo, ld.hi
   ops = []
+  kindname = 'list[partial]' if sub.partial else 'list'
 
   def add(name, src, new_len, vals=(), batch=False, index_error=False, result=None, delete=False):
     """vals: [(label, src, valid)] written by the op."""
+    if sub.partial and delete and name in _MISSING_DELETES:
+      name = 'delete-via-MISSING'      # one mechanism in a partial list
     why = None
     bad = [lab for lab, _, v in vals if not v]
     if bad:
@@ -812,7 +815,7 @@ def list_ops(sub, n, elem_samples):
       why, cls = f'size {new_len} < min_size {lo}', 'below-min-size'
     else:
       cls = 'valid'
-    op = dict(src=src, cid=f'list.{name}/{cls}', expect='reject' if why else 'any', why=why,
+    op = dict(src=src, cid=f'{kindname}.{name}/{cls}', expect='reject' if why else 'any', why=why,
               index_error=index_error, result=result)
     if batch:
       g = _list_batch_ok(sum(1 for _, _, v in vals if v))
@@ -837,6 +840,9 @@ def list_ops(sub, n, elem_samples):
     add('setitem-slice-grow', f'x[{n}:{n}]=[{s}]', n + 1, [t], batch=True)
     add('setitem-slice-grow', f'x[0:0]=[{v0[1]},{s}]', n + 2, [v0, t], batch=True)
     add('add', f'y=x+[{s}]', n + 1, [t], result=ld)
+    add('use_value_spec', 'y=pg.List(list(x.sym_values())+[' + s + ']).use_value_spec(x.value_spec' + (',True)' if sub.partial else ')'),
+        n + 1, [t], result=ld)
+    add('rebinder', f'x.rebind(lambda k,v:({s}) if k.key=={max(n - 1, 0)} else v,**NC)', n, [t] if n else [])
     add('ctor', 'y=pg.List(list(x.sym_values())+[' + s + '],value_spec=x.value_spec)', n + 1, [t], result=ld)
     if n >= 1:
       add('setitem', f'x[0]={s}', n, [t])
@@ -848,18 +854,20 @@ def list_ops(sub, n, elem_samples):
       add('setitem-slice-grow', f'x[-1:]=[{v0[1]},{v0[1]},{s}]', n + 2, [v0, v0, t], batch=True)
       add('setitem-slice-step', f'x[::2]=[{s}]*len(x[::2])', n, [t], batch=True)
       add('rebind-grow', f'x.rebind({{0:{v0[1]},{n + 1}:{s}}})', n + 1, [v0, t], batch=True)
-      add('rebind-multi', f'x.rebind({{0:Ins({s}),{n - 1}:M}})', n, [t], batch=True)
     if n >= 2:
       add('setitem-slice-shrink', f'x[0:2]=[{s}]', n - 1, [t], batch=True)
       add('rebind-multi', f'x.rebind({{0:{s},1:{v0[1]}}})', n, [t, v0], batch=True)
+      add('rebind-multi', f'x.rebind({{0:Ins({s}),{n - 1}:M}})', n, [t, ('delete', 'M', True)], batch=True)
   # size-only operations
   add('append-MISSING', 'x.append(M)', n)
   add('copy', 'y=x.copy()', n, result=ld)
   add('clone', 'y=x.clone()', n, result=ld)
   add('clone', 'y=x.clone(deep=True)', n, result=ld)
+  add('clone', 'y=__import__("copy").deepcopy(x)', n, result=ld)
+  add('clone', 'y=__import__("copy").copy(x)', n, result=ld)
   add('clone-override', f'y=x.clone(override={{{n + 1}:{v0[1]}}})', n + 1, result=ld)
   for k in (0, 1, 2, 3):
-    add('imul', f'x*={k}', n * k, delete=(k == 0))
+    add('imul', f'x*={k}', n * k, [('copy', '', True)] * (n * max(k - 1, 0)), delete=(k == 0), batch=True)
     add('mul', f'y=x*{k}', n * k, result=ld, delete=(k == 0))
     add('rmul', f'y={k}*x', n * k, result=ld, delete=(k == 0))
   add('add', 'y=x+[]', n, result=ld)
@@ -870,13 +878,13 @@ def list_ops(sub, n, elem_samples):
   add('clear', 'x.clear()', 0, delete=True)
   add('sort', 'x.sort(key=repr)', n)
   add('reverse', 'x.reverse()', n)
-  add('setitem-slice-clear', 'x[:]=[]', 0, delete=True)
+  add('setitem-slice-clear', 'x[:]=[]', 0, [('delete', 'M', True)] * n, delete=True, batch=True)
   add('pop', 'x.pop()', n - 1 if n else None, delete=True, index_error=(n == 0))
   add('pop', 'x.pop(0)', n - 1 if n else None, delete=True, index_error=(n == 0))
   add('delitem', 'del x[0]', n - 1 if n else None, delete=True, index_error=(n == 0))
   add('delitem', 'del x[-1]', n - 1 if n else None, delete=True, index_error=(n == 0))
   add('delitem-slice', 'del x[0:1]', max(n - 1, 0), delete=True)
-  add('delitem-slice', 'del x[:]', 0, delete=True)
+  add('delitem-slice', 'del x[:]', 0, [('delete', 'M', True)] * n, delete=True, batch=True)
   add('setitem-MISSING', 'x[0]=M', n - 1 if n else None, delete=True, index_error=(n == 0))
   add('rebind-delete', 'x.rebind({0:M},**NC)', max(n - 1, 0), delete=True)
   add('rebind-delete', f'x.rebind({{{n - 1 if n else 0}:M}},**NC)', max(n - 1, 0), delete=True)
@@ -885,8 +893,8 @@ def list_ops(sub, n, elem_samples):
     add('setitem-slice-delete', 'x[0:1]=[]', n - 1, delete=True, batch=True)
     add('setitem-slice-delete', 'x[-1:]=[]', n - 1, delete=True, batch=True)
   if n >= 2:
-    add('rebind-multi-delete', f'x.rebind({{0:M,{n - 1}:M}})', n - 2, delete=True)
-    add('delitem-slice', 'del x[::2]', n - len(range(0, n, 2)), delete=True)
+    add('rebind-multi-delete', f'x.rebind({{0:M,{n - 1}:M}})', n - 2, [('delete', 'M', True)] * 2, delete=True, batch=True)
+    add('delitem-slice', 'del x[::2]', n - len(range(0, n, 2)), [('delete', 'M', True)] * len(range(0, n, 2)), delete=True, batch=True)
   return ops
 
 
@@ -919,8 +927,11 @@ def _on_x(sub, before, after, g):
     return False
 
 
-def _elem_samples(elem):
-  return [(lab, s, True) for lab, s in elem.valid] + [(lab, s, False) for lab, s in elem.invalid]
+def _elem_samples(elem, partial=False):
+  """[(label, source, valid)]; a value that merely lacks required members is
+  acceptable when the container was explicitly made partial."""
+  return ([(lab, s, True) for lab, s in elem.valid]
+          + [(lab, s, partial and 'missing-required' in lab) for lab, s in elem.invalid])
 
 
 _SIZE_CONFIGS = [(0, None, 1), (1, 3, 2), (2, 2, 2), (0, 2, 0), (1, 3, 3), (1, 3, 1), (0, 1, 1)]
@@ -941,13 +952,18 @@ def drv_list_writes(tier, seed):
     if elem.frozen:
       continue
     for ci, (lo, hi, n0) in enumerate(_SIZE_CONFIGS):
-      if tier == 'quick' and ci >= 3 and ei >= 3:
+      with_partial = ci in (1, 5) and bool(getattr(elem, 'fields', None)) and not hasattr(elem, 'cls_name')
+      if tier == 'quick' and ei >= 3 and ci not in (1, 2) and not with_partial:
         continue
       wheres = ['top']
       if ci in (1, 2) and (tier != 'quick' or ei in (0, 10, 13)):
         wheres += ['dict', 'object', 'list']
+      if with_partial:
+        wheres.append('top-partial')
       for where in wheres:
-        sub = list_subjects(elem, lo, hi, n0, where)
+        is_partial = where == 'top-partial'
+        sub = list_subjects(elem, lo, hi, n0, 'top' if is_partial else where, partial=is_partial)
+        samples = _elem_samples(elem, is_partial)
         probe = Run(rec, sub)
         if probe.dead:
           continue
@@ -1006,6 +1022,9 @@ def drv_list_histories(tier, seed):
               break
   return rec.result()
 
+
+_MISSING_DELETES = {'setitem-MISSING', 'rebind-delete', 'rebind-multi-delete', 'setitem-slice-delete',
+                    'setitem-slice-clear', 'setitem-slice-shrink', 'delitem-slice'}
 
 _HIST_OPS = {'list.append', 'list.insert', 'list.extend', 'list.iadd', 'list.imul', 'list.setitem', 'list.pop',
              'list.delitem', 'list.delitem-slice', 'list.remove', 'list.clear', 'list.rebind-grow', 'list.rebind-delete', 'list.rebind-replace', 'list.setitem-slice-grow',
@@ -1126,6 +1145,8 @@ def dict_ops(sub, fd, present):
     add('rebind' + tag, f'x.rebind({{{key!r}:{s}}},**NC)', cls, why)
     if ident:
       add('rebind-kwargs' + tag, f'x.rebind({key}={s},**NC)', cls, why)
+    add('rebinder' + tag, f'x.rebind(lambda k,v:({s}) if k.key=={key!r} and len(k)==len(x.sym_path)+1 else v,**NC)',
+        cls if key in img else 'absent-key-no-op', why if key in img else None)
     add('clone-override' + tag, f'y=x.clone(override={{{key!r}:{s}}})', cls, why, result=sub.x_desc)
     add('clone-override' + tag, f'y=x.clone(deep=True,override={{{key!r}:{s}}})', cls, why, result=sub.x_desc)
     # batches: a valid write to g first / after
@@ -1154,6 +1175,7 @@ def dict_ops(sub, fd, present):
       add('ctor', f'y=pg.Dict({{"f":{s},{req_r}}},value_spec=x.value_spec)', cls, why, result=sub.x_desc)
       add('ctor-kwargs', f'y=pg.Dict(f={s},r=1,value_spec=x.value_spec)', cls, why, result=sub.x_desc)
       add('ctor-partial', f'y=pg.Dict.partial({{"f":{s}}},value_spec=x.value_spec)', pcls, pwhy, result=_PARTIAL)
+      add('use_value_spec', f'y=pg.Dict({{"f":{s},{req_r}}}).use_value_spec(x.value_spec)', cls, why, result=sub.x_desc)
     else:
       add('ctor', f'y=Obj(f={s},r=1)', cls, why, result=sub.x_desc)
       add('ctor-positional', f'y=Obj({s},r=1)' if not fd.frozen else f'y=Obj(r=1,f={s})', cls, why, result=sub.x_desc)
@@ -1218,6 +1240,7 @@ def dict_ops(sub, fd, present):
     add('ctor-partial', 'y=Obj.partial()', 'valid', result=_PARTIAL)
   add('clone', 'y=x.clone()', 'valid', result=sub.x_desc)
   add('clone', 'y=x.clone(deep=True)', 'valid', result=sub.x_desc)
+  add('clone', 'y=__import__("copy").deepcopy(x)', 'valid', result=sub.x_desc)
   # 5. nested paths when f is a container
   f_now = img.get('f', M)
   if hasattr(fd, 'elem') and isinstance(f_now, list) and f_now:
